@@ -120,6 +120,12 @@ func minimise(e *evaluator, plan *core.Plan, class string, budget time.Duration)
 		}
 		// 1b. shrink explicit input bytes (C04): delete spans, then simplify bytes
 		for size := len(cur.Input) / 2; size >= 1; size /= 2 {
+			// (the candidates of one pass are all in memory at once: a pass over a multi-megabyte input
+			// stops at the granularity at which they would exceed 256 MiB together; the input is then
+			// reported at that size)
+			if (len(cur.Input)/size)*len(cur.Input) > 256<<20 || time.Now().After(deadline) {
+				break
+			}
 			for {
 				var cands []*core.Plan
 				for i := 0; i+size <= len(cur.Input); i += size {
